@@ -1340,6 +1340,10 @@ void Interpreter::handle_import_statement(const ASTNode *node) {
         throw std::runtime_error("Failed to parse module: " + module_path);
     }
 
+    // mark the module first: a module reached again through its own imports
+    // is not re-entered
+    loaded_modules.insert(module_path);
+
     // import項目の指定があるかチェック
     bool has_specific_items = !node->import_items.empty();
     std::unordered_set<std::string> import_items_set(node->import_items.begin(),
@@ -1349,6 +1353,12 @@ void Interpreter::handle_import_statement(const ASTNode *node) {
     if (!module_ast->statements.empty()) {
         for (const auto &stmt_ptr : module_ast->statements) {
             const ASTNode *stmt = stmt_ptr.get();
+            if (stmt && stmt->node_type == ASTNodeType::AST_IMPORT_STMT) {
+                // a module's own imports are loaded with it (once:
+                // loaded_modules), so that what its exports refer to exists
+                handle_import_statement(stmt);
+                continue;
+            }
             if (!stmt || !stmt->is_exported)
                 continue;
 
